@@ -27,6 +27,11 @@ def noisy_world(seed, n_chroms=3):
             for t in g.hidden:
                 for _ in range(8):
                     w.read_from_transcript(t, mode="full", jitter=0, polya=True, flag=rng.choice((0, 16)))
+    # genes whose reads form two separate clusters (same reference isoform seen from two regions)
+    for ci, chrom in enumerate(w.chrom_order):
+        last = max([g.end for g in w.genes if g.chrom == chrom] + [1000])
+        if last + 16000 < w.chrom_len(chrom):
+            world2.two_cluster_gene(w, "K%d" % (ci + 1), chrom, last + 3000, rng.choice("+-"), n_iso=1 + ci % 2)
     # noise: reads with shifted junctions beyond tolerance, extended ends (novel models reaching beyond their gene)
     for g in list(w.genes):
         for t in g.hidden[:1]:
@@ -37,7 +42,7 @@ def noisy_world(seed, n_chroms=3):
                     w.make_read(t.chrom, ext, polya=30 if t.strand == "+" else 0, polyt=30 if t.strand == "-" else 0,
                                 truth={"src": t.id, "class": "extended-ends"})
         for t in g.transcripts[:1]:
-            if len(t.exons) >= 3:
+            if len(t.exons) >= 3 and t.kind != "two-cluster":
                 for _ in range(2):
                     ex = list(t.exons)
                     k = rng.randrange(len(ex) - 1)
@@ -129,6 +134,8 @@ def run(chk, scratch):
     for seed in sorted(set(j[0] for j in jobs)):
         d = os.path.join(scratch, "w%d" % seed)
         w = world2.split_locus_world(seed) if seed >= 9000 else noisy_world(seed)
+        if seed % 2 == 1 and seed < 9000:
+            world2.strip_tails(w)          # polyA-trimmed data: no polyA requirement, ends defined by read starts/ends only
         pipeline.write_world(w, d)
         worlds[seed] = (d, w)
 
@@ -137,8 +144,10 @@ def run(chk, scratch):
         d, w = worlds[seed]
         out = os.path.join(d, "out_%s_%s_%s" % (st, dt, annotated))
         ev = out + "_ev"
+        # every other job switches the polyA requirement off, so that loci seen from several regions without polyA evidence also yield models
+        pr = ["--polya_requirement", "never"] if (seed + len(st) + len(dt)) % 2 == 0 else []
         r = pipeline.run(d, out, data_type=dt, threads=2, annotated=annotated, home=out + "_home",
-                         extra=["--model_construction_strategy", st, "--report_novel_unspliced", "true"], mon=["split"], events=ev)
+                         extra=["--model_construction_strategy", st, "--report_novel_unspliced", "true"] + pr, mon=["split"], events=ev)
         n_split = sum(1 for e in runner.load_events(ev) if e["k"] == "split" and len(e["out"]) > 1)
         r["n_split"] = n_split
         return job, out, r
